@@ -10,6 +10,13 @@
      shared_future.h:104-110 ctor from fn returning future -> mode MFut  : make_shared() ; result_of(fn) ; if pending() charge
      shared_future.h:130-145 init_if_needed / get_promise  -> modes MLate, MLate2 (through a copy of an initialised handle)
      shared_future.h:120-122 set_value                     -> mode MPre  (born ready: not pending, no charge)
+     shared_future.h:104-110 + async.h:50-59,216-229       -> mode MCoro : ctor from `[&]{return coro().start();}`: the state is
+                                                              the future of an async coroutine parked on a gate; the resolver opens
+                                                              the gate and the coroutine's co_return / final_suspend resolve the state
+     implicit copy ctor / copy assignment / move assignment / self-assignment of the handle -> cpk (CpCtor, CpAssign, CpMove, CpSelf);
+       the other state released by an assignment is a private ready state of that user: its release is observed through the
+       instance counter and the sanitizers, it is not part of this model (concurrent use of the SAME handle object by two threads
+       is a data race by the C++ rules and excluded: every thread works on its own handle objects)
      shared_future.h:211-220 resolve_cb::charge            -> CSet (216) ; CSub (217, awaiter.h:121-136) ; CClr (218)
      shared_future.h:212-215 tracer callback               -> RClr (213), reached from the resolver's walk
      future.h:641-648 promise::set_value, 557-559 resolve, awaiter.h:96-112 resume_chain_set_ready / resume_chain_lk
@@ -22,7 +29,7 @@ Inductive outcome := ONone | OVal (v : Z) | OExc (e : Z) | ONotReady.
 Inductive node := NT | NU (w : nat).
 Inductive slotv := SChain (l : list node) | SReady.
 
-Inductive cmode := MFn | MFut | MLate | MLate2 | MPre (v : Z).
+Inductive cmode := MFn | MFut | MLate | MLate2 | MPre (v : Z) | MCoro.
 Inductive cpc :=
 | CClaim                        (* at "claim": the promise handed to the init function is moved to the resolver's mailbox *)
 | CDtor                         (* at "dtor": the moved-from promise dies; then make_shared returns (MFut: pending() is read) *)
@@ -31,7 +38,9 @@ Inductive cpc :=
 | CClr                          (* at "sf_dec": subscription refused, `_ptr = nullptr` (218) *)
 | CGive                         (* at "sf_inc": copy a handle for the next user thread *)
 | CDrop (k : nat)               (* at "sf_dec": drop one of the creator's k own handles *)
-| CDone.
+| CDone
+| CGate1                        (* MCoro, at "ready": the producer coroutine tests its gate (async::start, async.h:50-59) *)
+| CGate2.                       (* MCoro, at "sub": the producer parks on its gate; from now on the resolver may open it *)
 
 Inductive rkind := KVal (v : Z) | KExc (e : Z) | KDrop.
 Inductive rpc :=
@@ -40,7 +49,11 @@ Inductive rpc :=
 | RResolve                      (* at "resolve": exchange of the slot with the ready marker *)
 | RWalk                         (* at "walk": next node of the detached chain *)
 | RClr                          (* at "sf_clr": inside the tracer callback, before `_ptr = nullptr` (213) *)
-| RDone (res : bool).
+| RDone (res : bool)
+| RG1                           (* MCoro: at "claim" of the gate's promise *)
+| RG2                           (* MCoro: at "resolve" of the gate *)
+| RG3.                          (* MCoro: at "walk" of the gate's chain: the producer coroutine resumes here, co_returns
+                                   (async_promise::resolve = future::set) and reaches final_suspend (async.h:216-229) *)
 
 Inductive wkind := WCoro | WBlock | WCallback.
 Inductive ukind := UKDrop | UKPoll | UKAwait (w : wkind).
@@ -54,10 +67,20 @@ Inductive upc :=
 | UParked                       (* subscribed coroutine / callback: the thread has returned, frame / context keeps the handle *)
 | UFlag                         (* subscribed blocking thread *)
 | UDec                          (* at "sf_dec": drop the handle *)
-| UDone.
+| UDone
+| UAsg.                         (* at "sf_inc": move-assignment onto a live handle of another state / self-assignment:
+                                   the counter of this state does not change *)
 
-(* a user thread: copy-first flag, kind, pc, sync_awaiter flag, result picked up, how many times it picked one up *)
-Record uthr := mkU { ucp : bool; ukd : ukind; upcf : upc; uflag : bool; useen : option outcome; uruns : nat }.
+(* what a user does with the handle it received before using it *)
+Inductive cpk :=
+| CpNone                        (* nothing *)
+| CpCtor                        (* copy-construct, drop the original *)
+| CpAssign                      (* copy-assign onto a live handle of another (ready) state, drop the original *)
+| CpMove                        (* move-assign onto a live handle of another (ready) state *)
+| CpSelf.                       (* self-assignment *)
+
+(* a user thread: what it does first, kind, pc, sync_awaiter flag, result picked up, how many times it picked one up *)
+Record uthr := mkU { ucp : cpk; ukd : ukind; upcf : upc; uflag : bool; useen : option outcome; uruns : nat }.
 
 (* thread ids: 0 = creator, 1 = resolver, j + 2 = user j *)
 Record st := mkSt {
@@ -194,10 +217,12 @@ Definition after_charge (s : st) : st :=
 (* creator step; returns the new state and the code of the point the thread was pending at *)
 Definition cstep (s : st) : st * Z :=
   match cpcf s with
-  | CClaim => (set_cpc (set_pavail s true) CDtor, 1)
+  | CClaim => (match mode s with MCoro => set_cpc s CGate1 | _ => set_cpc (set_pavail s true) CDtor end, 1)
+  | CGate1 => (set_cpc s CGate2, 5)
+  | CGate2 => (set_cpc (set_pavail s true) CDtor, 6)
   | CDtor =>
       (match mode s with
-       | MFut => let s1 := touch s in    (* shared_future.h:109 `if (_ptr->pending())` *)
+       | MFut | MCoro => let s1 := touch s in    (* shared_future.h:109 `if (_ptr->pending())` *)
                  match slot s1 with
                  | SReady => set_cpc s1 (next_give (users s1) (mode s1))
                  | _ => set_cpc s1 CSet
@@ -228,7 +253,11 @@ Definition maybe_finish (s : st) : st := match walk s with [] => finish s | _ =>
 
 Definition rstep (s : st) : st * Z :=
   match rpcf s with
-  | RXWait => (set_rpc s RClaim, 9)
+  | RXWait => (set_rpc s (match mode s with MCoro => RG1 | _ => RClaim end), 9)
+  | RG1 => (set_rpc s RG2, 1)
+  | RG2 => (set_rpc s RG3, 3)
+  | RG3 =>          (* the producer coroutine co_returns: future::set constructs the payload in the state *)
+      (let s1 := touch s in set_rpc (set_payload s1 (payload_of (rk s1)) (has_payload (rk s1))) RResolve, 4)
   | RClaim =>       (* claim(), then future::set constructs the payload in the state *)
       (let s1 := touch s in set_rpc (set_payload s1 (payload_of (rk s1)) (has_payload (rk s1))) RResolve, 1)
   | RResolve =>
@@ -252,7 +281,12 @@ Definition ustep (s : st) (j : nat) : st * Z :=
   | Some u =>
       match upcf u with
       | UWait0 => (s, 0)
-      | UWait1 => (set_user s j (set_upc u (if ucp u then UInc else first_action (ukd u))), 9)
+      | UWait1 => (set_user s j (set_upc u (match ucp u with
+                                            | CpNone => first_action (ukd u)
+                                            | CpCtor | CpAssign => UInc
+                                            | CpMove | CpSelf => UAsg
+                                            end)), 9)
+      | UAsg => (set_user s j (set_upc u (first_action (ukd u))), 54)
       | UInc => (set_user (add_ref s) j (set_upc u UDecO), 54)
       | UDecO => (set_user (drop_ref s) j (set_upc u (first_action (ukd u))), 50)
       | UReady =>
@@ -317,6 +351,7 @@ Fixpoint run_sched (fuel : nat) (s : st) (sched : list Z) (tr : list (nat * Z)) 
 Definition decode_mode (l : list Z) : list cmode :=
   match l with
   | [0; 0; _] => [MFn] | [0; 1; _] => [MFut] | [0; 2; _] => [MLate] | [0; 3; _] => [MLate2] | [0; 4; v] => [MPre v]
+  | [0; 5; _] => [MCoro]
   | _ => []
   end.
 Definition decode_res (l : list Z) : list rkind :=
@@ -324,7 +359,8 @@ Definition decode_res (l : list Z) : list rkind :=
   | [1; 0; v] => [KVal v] | [1; 1; e] => [KExc e] | [1; 2; _] => [KDrop]
   | _ => []
   end.
-Definition decode_cp (c : Z) : option bool := match c with 0 => Some false | 1 => Some true | _ => None end.
+Definition decode_cp (c : Z) : option cpk :=
+  match c with 0 => Some CpNone | 1 => Some CpCtor | 2 => Some CpAssign | 3 => Some CpMove | 4 => Some CpSelf | _ => None end.
 Definition decode_uk (k : Z) : option ukind :=
   match k with
   | 0 => Some UKDrop | 1 => Some UKPoll | 2 => Some (UKAwait WCoro) | 3 => Some (UKAwait WBlock)
@@ -348,7 +384,7 @@ Definition res_of (ops : list (list Z)) : rkind :=
 
 Definition init_cpc (m : cmode) (us : list uthr) : cpc :=
   match m with
-  | MFn | MFut => CClaim
+  | MFn | MFut | MCoro => CClaim
   | MLate | MLate2 => CSet
   | MPre _ => next_give us m
   end.
@@ -363,20 +399,20 @@ Definition init (ops : list (list Z)) : st :=
        (match m with MPre v => OVal v | _ => ONone end)
        (own_handles m) false 0 (match m with MPre _ => 1%nat | _ => 0%nat end) 0 0 false [] [] us.
 
-Definition okind (o : option outcome) : list Z :=
+Definition okind (isvoid : bool) (o : option outcome) : list Z :=
   match o with
   | None => [9; 0]
-  | Some ONone => [0; 0] | Some (OVal v) => [1; v] | Some (OExc e) => [2; e] | Some ONotReady => [7; 0]
+  | Some ONone => [0; 0] | Some (OVal v) => [1; if isvoid then 0 else v] | Some (OExc e) => [2; e] | Some ONotReady => [7; 0]
   end.
 
-Definition user_obs (i : nat) (u : uthr) : list Z :=
-  Z.of_nat i :: 2 :: (match upcf u with UDone => 1 | _ => 0 end) :: okind (useen u) ++ [Z.of_nat (uruns u)].
-Fixpoint user_obs_all (l : list uthr) (i : nat) : list (list Z) :=
-  match l with [] => [] | u :: r => user_obs i u :: user_obs_all r (S i) end.
-Definition thr_obs_all (s : st) : list (list Z) :=
+Definition user_obs (isvoid : bool) (i : nat) (u : uthr) : list Z :=
+  Z.of_nat i :: 2 :: (match upcf u with UDone => 1 | _ => 0 end) :: okind isvoid (useen u) ++ [Z.of_nat (uruns u)].
+Fixpoint user_obs_all (isvoid : bool) (l : list uthr) (i : nat) : list (list Z) :=
+  match l with [] => [] | u :: r => user_obs isvoid i u :: user_obs_all isvoid r (S i) end.
+Definition thr_obs_all (isvoid : bool) (s : st) : list (list Z) :=
   [0; 3; match cpcf s with CDone => 1 | _ => 0 end]
   :: [1; 1; match rpcf s with RDone r => b2z r | _ => -1 end]
-  :: user_obs_all (users s) 2.
+  :: user_obs_all isvoid (users s) 2.
 
 Definition unfinished (u : uthr) : bool :=
   match upcf u with UDone | UParked => false | _ => true end.
@@ -397,26 +433,26 @@ Definition final_state (ops : list (list Z)) : st * list (nat * Z) :=
   let sched := flat_map decode_sched ops in
   run_sched (length sched + 2000) (init ops) sched [].
 
-Definition sf_run (ops : list (list Z)) : list (list Z) :=
+Definition sf_run (isvoid : bool) (ops : list (list Z)) : list (list Z) :=
   let '(s, tr) := final_state ops in
   map (fun p => [Z.of_nat (fst p); snd p]) tr
   ++ (match stuck_list s with [] => [] | l => [777 :: l] end)
-  ++ thr_obs_all s ++ [final_obs s].
+  ++ thr_obs_all isvoid s ++ [final_obs s].
 
 (* the old init_if_needed (`if (_ptr)`, before commit a23ff80): a default-constructed handle stays null and
    get_promise() dereferences it before any point is reached (see Regress_C17.v) *)
-Definition sf_run_old (ops : list (list Z)) : list (list Z) :=
-  if is_late (mode_of ops) then [[-999]] else sf_run ops.
+Definition sf_run_old (isvoid : bool) (ops : list (list Z)) : list (list Z) :=
+  if is_late (mode_of ops) then [[-999]] else sf_run isvoid ops.
 
 (* ---------- decidable form of C17 on an observed result block ---------- *)
 Definition list_eqb (a b : list Z) : bool :=
   Nat.eqb (length a) (length b) && forallb (fun p => Z.eqb (fst p) (snd p)) (combine a b).
 Definition is_trace_line (l : list Z) : bool := match l with [_; _] => true | _ => false end.
 
-Definition expected (ops : list (list Z)) : list Z :=
+Definition expected (isvoid : bool) (ops : list (list Z)) : list Z :=
   match mode_of ops with
-  | MPre v => [1; v]
-  | _ => okind (Some (payload_of (res_of ops)))
+  | MPre v => okind isvoid (Some (OVal v))
+  | _ => okind isvoid (Some (payload_of (res_of ops)))
   end.
 
 (* the result line of a user thread must be: finished, resumed / read exactly once, same result *)
@@ -436,11 +472,11 @@ Fixpoint lines_ok (exp : list Z) (decl : list uthr) (i : nat) (res : list (list 
   | _, _ => false
   end.
 
-Definition sf_oracle (ops obs : list (list Z)) : bool :=
+Definition sf_oracle (isvoid : bool) (ops obs : list (list Z)) : bool :=
   let s0 := init ops in
   let res := filter (fun l => negb (is_trace_line l)) obs in
   match res with
   | [0; 3; 1] :: [1; 1; r] :: rest =>
-      Z.eqb r (match mode s0 with MPre _ => 0 | _ => 1 end) && lines_ok (expected ops) (users s0) 2 rest
+      Z.eqb r (match mode s0 with MPre _ => 0 | _ => 1 end) && lines_ok (expected isvoid ops) (users s0) 2 rest
   | _ => false
   end.
